@@ -46,7 +46,33 @@ func run(c *hc.Ctx) {
 		class := []int{0, 0, 0, 1, 2, 3, 4}[c.Intn(7)]
 		closeAll := !c.Chance(0.15)
 		P := c.GenPolygon(class, &pool, closeAll)
-		if c.Chance(0.5) {
+		if c.Chance(0.2) {
+			// a frame with several holes / islands, many stacked in the same columns (hole above hole,
+			// island in hole): the nesting depth of each result contour decides its orientation
+			class, closeAll = 5, true
+			P = &canvas.Path{}
+			rect := func(x0, y0, w, h float64, ccw bool) {
+				P.MoveTo(x0, y0)
+				if ccw {
+					P.LineTo(x0+w, y0)
+					P.LineTo(x0+w, y0+h)
+					P.LineTo(x0, y0+h)
+				} else {
+					P.LineTo(x0, y0+h)
+					P.LineTo(x0+w, y0+h)
+					P.LineTo(x0+w, y0)
+				}
+				P.Close()
+			}
+			occ := c.Bool()
+			rect(-9, -9, 18, 18, occ)
+			cols := []float64{-7, -6, -2, -1, 3, 4}
+			for k, n := 0, 2+c.Intn(4); k < n; k++ {
+				x0 := cols[c.Intn(len(cols))]
+				y0 := float64(c.Intn(15) - 8)
+				rect(x0, y0, float64(1+c.Intn(3)), float64(1+c.Intn(2)), c.Chance(0.2) == occ)
+			}
+		} else if c.Chance(0.5) {
 			// several contours sharing vertices: overlaps, nesting, opposite orientations
 			P = P.Append(c.GenPolygon([]int{0, 1, 2, 3, 4}[c.Intn(5)], &pool, closeAll))
 		}
